@@ -255,6 +255,7 @@ def env_generator_attrs(ctx: Ctx):
     integer_demands(ctx)
     cvrptw_windows(ctx)
     fjsp_eligibility(ctx)
+    shape_counts(ctx)
     # C18.f: MTVRP generator -- time windows / service times are times, built from distances through the speed
     from .. import units
     menv = EnvA(ctx.repo, T.ALL_ENVS["MTVRPEnv"], "MTVRPEnv")
@@ -263,6 +264,66 @@ def env_generator_attrs(ctx: Ctx):
         raise AnalysisError("MTVRPGenerator._generate not analysable")
     ctx.fn(gsl_.fi)
     units.obligations(ctx, "C18.f", "MTVRPGenerator._generate", gsl_.it, gsl_.fr, gsl_.where, 15, declared_out=units.MTVRP_CELLS)
+
+
+def shape_counts(ctx: Ctx):
+    """C18.j counts that an env reads off a tensor's shape (`n = td[key].shape[-1]`) are resolved through `_reset` and the
+    generator's `_generate` to the size the generator gives that axis.  An axis that the generator builds with the literal
+    size 1 (`size=(*batch_size, 1)`) cannot carry a count: the env's `n` is then the constant 1 whatever the instance is,
+    while the node layout it is compared with comes from the generator's configuration."""
+    from .. import symshape
+    # engine control: a literal construction must resolve
+    probe = vg.mk("call", vg.mk("ext", "torch.randint"), vg.const(0), vg.const(5),
+                  vg.mk("kw", "size", vg.mk("tuple", vg.mk("starred", vg.mk("param", "batch_size")), vg.const(1))))
+    if symshape.SymShape([{}, {}]).dim(probe, -1) != nf.Poly.const(1):
+        raise AnalysisError("symbolic shape engine: control construction randint(size=(*batch_size, 1)) does not resolve to 1")
+    n_reads = n_res = 0
+    for cname, path in T.ALL_ENVS.items():
+        env = EnvA(ctx.repo, path, cname)
+        g, gsl = generator_slot(ctx.repo, env.cls)
+        rs = env.slot("_reset")
+        if gsl is None or not isinstance(gsl.fr.ret, vg.TD) or rs is None or rs.td is None:
+            continue
+        SS = symshape.SymShape([rs.td.cells, gsl.fr.ret.cells])
+        for meth in ("_step", "get_action_mask", "_get_reward", "check_solution_validity"):
+            seen = set()
+            try:
+                sl = env.slot(meth)
+            except AnalysisError:
+                sl = None
+            if sl is None:
+                continue
+            roots = []
+            if sl.td is not None:
+                roots += [v for v in sl.td.cells.values() if isinstance(v, vg.S)]
+            if isinstance(sl.fr.ret, vg.S):
+                roots.append(sl.fr.ret)
+            for e in sl.it.events:
+                if e.kind == "assert":
+                    roots.append(e.data if isinstance(e.data, vg.S) else e.data[0])
+            for r in roots:
+                for n in vg.walk(r):
+                    d = nf.dim_of(n)
+                    if d is None or n.id in seen:
+                        continue
+                    seen.add(n.id)
+                    base, k = d
+                    if not isinstance(k, int) or k >= 0 or not vg.cells_of(base):
+                        continue
+                    n_reads += 1
+                    v = SS.dim(base, k)
+                    if v is None:
+                        continue
+                    n_res += 1
+                    key = "+".join(sorted(vg.cells_of(base)))
+                    ok = v != nf.Poly.const(1)
+                    ctx.ob("C18.j", f"{cname}.{meth}:count-from-shape:{key}[{k}]", ok, sl.where,
+                           f"{vg.show(n, 3)} resolves to {v.show(3)}" + ("" if ok else
+                           f": the generator builds this axis with the literal size 1, so the count the env derives from it is 1 for every instance and configuration "
+                           f"(via {'; '.join(SS.trace[-2:])})"), construct=f"{cname}.{meth}:shape-count:{key}[{k}]")
+    ctx.extra["shape_counts"] = {"reads": n_reads, "resolved": n_res}
+    if n_res < 8:
+        raise AnalysisError(f"symbolic shape resolution covers only {n_res} of {n_reads} shape reads (floor 8)")
 
 
 def _ctor_default(cls_node, name):
